@@ -12,12 +12,15 @@ def check(run):
     ncases = sum(1 for _ in open(cases))
     run.vh(["rt", "gob", cases, run.path("g_trace.ndjson")])
     n = rtcommon.judge(run, run.path("g_trace.ndjson"), "gob-rt", "model cases")
+    nr, depth = (12000, 4) if thorough else (1200, 3)
+    run.vh(["rt-drive", "gob", nr, depth, run.path("v_trace.ndjson")])
+    n += rtcommon.judge(run, run.path("v_trace.ndjson"), "gob-rt", "random deep values")
     with open(cases) as f:
         for i, l in enumerate(f):
             if i % 1500 == 9:
                 run.sample(json.loads(l))
     run.cov.update(evaluations=n, distinct_nontrivial=ncases, exhaustive=True, traces_validated_against_impl=n,
-                   rule="G: case families of Cases.tla with the gob additions (nanoseconds, non-UTC zones), each through "
+                   rule="V: random values of every Go type with random property subsets nested to depth <=4, judged the same way; G: case families of Cases.tla with the gob additions (nanoseconds, non-UTC zones), each through "
                         "ap.GobEncode/ap.GobDecode, T.GobEncode/(*T).GobDecode and MarshalBinary/UnmarshalBinary; decoded value "
                         "projected by reflection and compared by JsonRTTrace.tla with GFItem(input)")
 
